@@ -64,7 +64,7 @@ class ArrayAppendFault(AH.ArrayHistory):
             ops[0]['data']['rows'] = 3
             ops.append({'op': 'truncate', 'index': 0, 'by': 'handle'})
         call = rng.choice(['iterappend', 'iterappend', 'iterappend', 'append'])
-        n = 1 if call == 'append' else rng.choice([0, 1, 2, 3, 4, 6])
+        n = 1 if call == 'append' else rng.choice([0, 1, 2, 3, 4, 6] + ([8, 10, 12] if tier == 'thorough' else []))
         chunks = []
         for j in range(n):
             c = self.gen_data(rng, rows=rng.choice([0, 1, 1, 2, 3, 5]), other_dtype_p=0.2)
@@ -430,7 +430,7 @@ class RaggedAppendFault(RH.RaggedHistory):
                     continue
                 ops.append(op)
         call = rng.choice(['iterappend', 'iterappend', 'iterappend', 'append'])
-        n = 1 if call == 'append' else rng.choice([0, 1, 2, 3, 4, 6])
+        n = 1 if call == 'append' else rng.choice([0, 1, 2, 3, 4, 6] + ([8, 10] if tier == 'thorough' else []))
         items = [self.gen_item(rng, other_p=0.2) for _ in range(n)]
         if kind == 'efbig_indices':
             items = [dict(it, rows=rng.choice([0, 1, 1, 2]), dtype='same', gen='safe', form='ndarray') for it in items]
